@@ -243,7 +243,7 @@ def e3_never_inline(ctx, rep):
                           "path [%s] of the submitted job calls the payload %d time(s): the effect is silently skipped (or repeated)" % (p.describe(), cnt))
         may, must = ctx.lr(b).held_at(s.bb)
         rep.check(not may, R, "payload-called-without-locks:" + fn, s.where, "no store lock held while the payload runs", "payload runs while holding %s" % sorted(may))
-    rep.floor(R, "payload call sites", n, 3)
+    rep.floor(R, "payload call sites", n, 2)
 
 
 def e4_effect_action(ctx, rep):
@@ -301,6 +301,8 @@ def e5_total_handover(ctx, rep):
                     for st in subterms(e.args[1]):
                         if st[0] == "agg" and st[1].startswith("closure:") and any(x == ("param", 2) for part in st[2] for x in subterms(part)):
                             caps = True
+                    if strip_wrap(e.args[1]) == ("param", 2):
+                        caps = True  # the boxed FnOnce itself is the job (`pool.execute(task)`)
                 rep.check(len(ex) == 1 and caps, R, "submitted-once:" + fn, ctx.where(b, ex[0].bb), "path [%s]: one execute of a closure owning the task" % p.describe(), "path [%s]: %d execute call(s), closure owns the task: %s" % (p.describe(), len(ex), caps))
             else:
                 none = pool and pool[0].lstrip("*") == "None"
